@@ -288,6 +288,9 @@ func run(c *hlib.Ctx) {
 	runC2F(c)
 	runSearch(c)
 	runRectOps(c)
+	// round 5 (appended, so that the random streams of the kinds above are unchanged)
+	runPolytopes(c)
+	runConjFar(c)
 }
 
 // soup3 sends a real mesh (exact float coordinates, interned vertex ids) to the proved deciders.
